@@ -118,6 +118,16 @@ theorem unwind_no_nil_fn_deref :
       (WriteSites.fnDerefs.filter (·.1 == f)).all (fun r => r.2.2 == 0 && 0 < r.2.1)) = true := by
   decide +kernel
 
+/-- **recover() hands back the raised value itself.** A deferred function that recovers and
+panics again with what it recovered (`if e := recover(); e != nil { cleanup; panic(e) }`) must
+re-raise the very `outError` that `convertPanic` and `VM.Run` recognise
+(`writer_error_reaches_caller`); the only value `OpRecover` gives to the interpreted code is the
+message of the active panic, untransformed, so the re-raised panic is classified as the first was
+and `Run` still returns E. -/
+theorem recover_returns_raised_value :
+    WriteSites.recoverValue = ["reflect.ValueOf(vm.panic.message)", "setGeneral:msg"] := by
+  decide +kernel
+
 /-! ### non-vacuity and the negative case -/
 
 -- a concrete three-chunk render, failing at the second write
